@@ -128,12 +128,16 @@ def affine_shape(ctx):
     ctx.stats['terms_compared'] += 1
     ctx.check(len(main) == 1 and norm(main[0]) == want, 'impose_spread', 'samples * (r / spread), then the mean restored',
               'impose_spread computes %s' % [T.show(norm(g))[:160] for g in main], f, f.node)
-    # degenerate variance / spread are refused, not silently passed through
-    for name, guard in (('impose_variance', 'sv'), ('impose_spread', 'sr')):
-        g = ctx.func('%s:%s' % (MS, name))
-        ifs = [s for s in g.node.body if isinstance(s, ast.If) and ''.join(unparse(s.test).split()) == 'not' + guard]
-        ctx.check(bool(ifs), name + '#degenerate', 'zero %s handled before dividing' % ('variance' if guard == 'sv' else 'spread'),
-                  '%s divides by a possibly zero %s' % (name, guard), g, g.node)
+    # degenerate variance / spread are refused, not silently passed through: every path that reaches the rescaling has
+    # established that the divisor (variance(samples, weights) / spread(samples), whatever local holds it) is non-zero
+    for name, div in (('impose_variance', 'variance(samples, weights)'), ('impose_spread', 'spread(samples)')):
+        g, rets2 = _ret_term(ctx, '%s:%s' % (MS, name))
+        D = T.term(ast.parse(div, mode='eval').body)
+        Dl = T.substitute(D, ('name', 'samples'), ('call', ('name', 'list'), (('name', 'samples'),), ()))
+        mains = [(l, v) for l, v in rets2 if v[0] == 'call' and T.show(v[1]) == 'impose_mean']
+        ok_ = bool(mains) and all(any(lit[0] == 'T' and lit[1] in (D, Dl) for lit in l if len(lit) == 2) for l, v in mains)
+        ctx.check(ok_, name + '#degenerate', 'zero %s handled before dividing' % div.split('(')[0],
+                  '%s divides by a possibly zero %s' % (name, div), g, g.node)
 
 
 def _ref(ctx, anchor, src, what):
@@ -170,26 +174,12 @@ def definitions_by_delegation(ctx):
 ''', 'sum(w*s)/sum(w) (plain average without weights)')
 
 
-@rule('C18.d', min_instances=4)
+@rule('C18.d', min_instances=2)
 def zeroed_weights(ctx):
-    """impose_support keeps a weight iff its index is listed, impose_unweighted zeroes it iff listed; negative indices are normalised by len(weights); the total weight is restored with normalize(., sum of the input weights)"""
-    for name, keep in (('impose_support', True), ('impose_unweighted', False)):
-        f = ctx.func('%s:%s' % (MS, name))
-        idx = [s for s in f.node.body if isinstance(s, ast.Assign) and isinstance(s.targets[0], ast.Name) and s.targets[0].id == 'index' and isinstance(s.value, ast.Call)]
-        want = T.term(ast.parse('set(len(weights)+i if i<0 else i for i in index)', mode='eval').body)
-        ctx.check(bool(idx) and t(idx[-1].value) == want, name + '#negative-index', 'negative indices count from the end',
-                  '%s normalises its indices as %s' % (name, unparse(idx[-1].value) if idx else None), f, idx[-1] if idx else f.node)
-        var = 'weights' if keep else '_weights'
-        ws = [s for s in f.node.body if isinstance(s, ast.Assign) and isinstance(s.targets[0], ast.Name) and s.targets[0].id == var and isinstance(s.value, ast.ListComp)]
-        src = 'w if i in index else 0.' if keep else '0. if i in index else w'
-        want = T.term(ast.parse('[%s for (i,w) in enumerate(weights)]' % src, mode='eval').body)
-        ctx.check(bool(ws) and t(ws[0].value) == want, name + '#selection', 'weight %s iff its index is listed' % ('kept' if keep else 'zeroed'),
-                  '%s selects weights as %s' % (name, unparse(ws[0].value) if ws else None), f, ws[0] if ws else f.node)
-        nn = [s for s in f.node.body if isinstance(s, ast.Assign) and isinstance(s.targets[0], ast.Name) and s.targets[0].id == 'n']
-        nz = [s for s in f.node.body if isinstance(s, ast.Assign) and isinstance(s.value, ast.Call) and callee_text(s.value) == 'normalize']
-        good = bool(nn) and unparse(nn[0].value) == 'sum(weights)' and bool(nz) and [unparse(a) for a in nz[-1].value.args] == [var, 'n'] and \
-            nn[0].lineno < (ws[0].lineno if ws else 0)
-        ctx.check(good, name + '#total', 'total weight captured first and restored by normalize(., n)', '%s no longer restores the total weight of its input' % name, f, nz[-1] if nz else f.node)
+    """impose_support keeps a weight iff its index is listed, impose_unweighted zeroes it iff listed; negative indices are normalised by len(weights); the mean and the total weight are captured from the input first and restored last (behavioural summaries against reference transcriptions; helpers of the package are looked through)"""
+    from .c18_refs import REFS
+    for name, what in (('impose_support', 'weight kept iff its index is listed'), ('impose_unweighted', 'weight zeroed iff its index is listed')):
+        _ref(ctx, '%s:%s' % (MS, name), REFS['%s:%s' % (MS, name)], what + '; negative indices count from the end; total weight and mean restored')
 
 
 @rule('C18.e', min_instances=4)
